@@ -42,45 +42,79 @@ def has(permissions, bit):
     return (permissions // bit) % 2 == 1
 
 
-def may_read(permissions, encrypted, authenticated):
-    """statement: a peer can obtain the value only if the attribute is readable and the link meets its read
-    encryption / authentication / authorisation requirement.  No authorisation is ever granted by the stack
-    (there is no authorisation procedure), so an attribute that requires it is never readable by a peer."""
+def link_ok_read(permissions, encrypted, authenticated):
+    """the link meets the attribute's read encryption / authentication / authorisation requirement.  No
+    authorisation is ever granted by the stack (there is no authorisation procedure), so an attribute that
+    requires it is never readable by a peer."""
     return (
-        has(permissions, READABLE)
-        and (not has(permissions, READ_REQUIRES_ENCRYPTION) or encrypted)
+        (not has(permissions, READ_REQUIRES_ENCRYPTION) or encrypted)
         and (not has(permissions, READ_REQUIRES_AUTHENTICATION) or authenticated)
         and not has(permissions, READ_REQUIRES_AUTHORIZATION)
     )
 
 
-def may_write(permissions, encrypted, authenticated):
+def link_ok_write(permissions, encrypted, authenticated):
     return (
-        has(permissions, WRITEABLE)
-        and (not has(permissions, WRITE_REQUIRES_ENCRYPTION) or encrypted)
+        (not has(permissions, WRITE_REQUIRES_ENCRYPTION) or encrypted)
         and (not has(permissions, WRITE_REQUIRES_AUTHENTICATION) or authenticated)
         and not has(permissions, WRITE_REQUIRES_AUTHORIZATION)
     )
 
 
-def read_refusal_code_ok(code, permissions, encrypted, authenticated):
-    """"the corresponding ATT error": the code names one of the requirements that is actually unmet
+def may_read(permissions, encrypted, authenticated):
+    """statement: a peer can obtain the value only if the attribute is readable and the link meets its read
+    encryption / authentication / authorisation requirement"""
+    return has(permissions, READABLE) and link_ok_read(permissions, encrypted, authenticated)
+
+
+def may_write(permissions, encrypted, authenticated):
+    return has(permissions, WRITEABLE) and link_ok_write(permissions, encrypted, authenticated)
+
+
+def no_read_permission_at_all(permissions):
+    """none of the read flags is set: neither READABLE nor any read requirement"""
+    return not (
+        has(permissions, READABLE)
+        or has(permissions, READ_REQUIRES_ENCRYPTION)
+        or has(permissions, READ_REQUIRES_AUTHENTICATION)
+        or has(permissions, READ_REQUIRES_AUTHORIZATION)
+    )
+
+
+def no_write_permission_at_all(permissions):
+    return not (
+        has(permissions, WRITEABLE)
+        or has(permissions, WRITE_REQUIRES_ENCRYPTION)
+        or has(permissions, WRITE_REQUIRES_AUTHENTICATION)
+        or has(permissions, WRITE_REQUIRES_AUTHORIZATION)
+    )
+
+
+def read_link_refusal_code_ok(code, permissions, encrypted, authenticated):
+    """"the corresponding ATT error": the code names one of the link requirements that is actually unmet
     (when several are unmet the specification lets the server pick the order of its checks)"""
     return (
-        (code == ERR_READ_NOT_PERMITTED and not has(permissions, READABLE))
-        or (code == ERR_INSUFFICIENT_ENCRYPTION and has(permissions, READ_REQUIRES_ENCRYPTION) and not encrypted)
+        (code == ERR_INSUFFICIENT_ENCRYPTION and has(permissions, READ_REQUIRES_ENCRYPTION) and not encrypted)
         or (code == ERR_INSUFFICIENT_AUTHENTICATION and has(permissions, READ_REQUIRES_AUTHENTICATION) and not authenticated)
         or (code == ERR_INSUFFICIENT_AUTHORIZATION and has(permissions, READ_REQUIRES_AUTHORIZATION))
     )
 
 
-def write_refusal_code_ok(code, permissions, encrypted, authenticated):
+def write_link_refusal_code_ok(code, permissions, encrypted, authenticated):
     return (
-        (code == ERR_WRITE_NOT_PERMITTED and not has(permissions, WRITEABLE))
-        or (code == ERR_INSUFFICIENT_ENCRYPTION and has(permissions, WRITE_REQUIRES_ENCRYPTION) and not encrypted)
+        (code == ERR_INSUFFICIENT_ENCRYPTION and has(permissions, WRITE_REQUIRES_ENCRYPTION) and not encrypted)
         or (code == ERR_INSUFFICIENT_AUTHENTICATION and has(permissions, WRITE_REQUIRES_AUTHENTICATION) and not authenticated)
         or (code == ERR_INSUFFICIENT_AUTHORIZATION and has(permissions, WRITE_REQUIRES_AUTHORIZATION))
     )
+
+
+def read_refusal_code_ok(code, permissions, encrypted, authenticated):
+    """Read Not Permitted for an attribute that is not readable, else the unmet link requirement"""
+    return (code == ERR_READ_NOT_PERMITTED and not has(permissions, READABLE)) or read_link_refusal_code_ok(code, permissions, encrypted, authenticated)
+
+
+def write_refusal_code_ok(code, permissions, encrypted, authenticated):
+    return (code == ERR_WRITE_NOT_PERMITTED and not has(permissions, WRITEABLE)) or write_link_refusal_code_ok(code, permissions, encrypted, authenticated)
 
 
 def is_permission_error(code):
